@@ -27,7 +27,7 @@ pub fn scratch_base() -> PathBuf {
 }
 
 /// Execute one run in a fresh thread (fresh std hash keys from the run's entropy stream).
-pub fn execute(spec: &'static CheckSpec, seed: u64, index: u64, thorough: bool, replay: Option<Vec<u32>>) -> (RunResult, Vec<u32>) {
+pub fn execute(spec: &'static CheckSpec, seed: u64, index: u64, thorough: bool, replay: Option<Vec<Vec<u32>>>) -> (RunResult, Vec<Vec<u32>>) {
     let scratch = scratch_base().join(format!("{}-{}", std::process::id(), index));
     if spec.needs_scratch {
         let _ = std::fs::remove_dir_all(&scratch);
@@ -69,13 +69,13 @@ pub fn execute(spec: &'static CheckSpec, seed: u64, index: u64, thorough: bool, 
     }
 }
 
-fn result_json(index: u64, seed: u64, r: &RunResult, choices: &[u32], full: bool) -> Value {
+fn result_json(index: u64, seed: u64, r: &RunResult, choices: &[Vec<u32>], full: bool) -> Value {
     let mut v = json!({
         "i": index, "seed": seed, "fp": format!("{:016x}", r.trace.fingerprint),
         "seq": format!("{:016x}", r.trace.seq_hash),
         "steps": r.steps, "sim_ms": r.sim_ms, "nt": r.nontrivial, "events": r.trace.count,
         "viol": r.violations.iter().map(|v| json!({"p": v.property, "c": v.class, "d": v.detail})).collect::<Vec<_>>(),
-        "foreign": r.foreign, "ctr": r.counters, "summary": r.summary, "draws": choices.len(),
+        "foreign": r.foreign, "ctr": r.counters, "summary": r.summary, "draws": choices.iter().map(|s| s.len()).sum::<usize>(),
     });
     if full || !r.violations.is_empty() {
         v["choices"] = json!(choices);
@@ -129,7 +129,7 @@ pub fn worker(spec: &'static CheckSpec, base_seed: u64, from: u64, to: u64, stri
 }
 
 /// One run from an explicit choice vector, in this process; prints one R line (full).
-pub fn exec_one(spec: &'static CheckSpec, seed: u64, index: u64, thorough: bool, choices: Option<Vec<u32>>) {
+pub fn exec_one(spec: &'static CheckSpec, seed: u64, index: u64, thorough: bool, choices: Option<Vec<Vec<u32>>>) {
     println!("B {}", index);
     std::io::stdout().flush().ok();
     let (r, ch) = execute(spec, seed, index, thorough, choices);
@@ -143,7 +143,7 @@ struct ChildOutcome {
     stderr_tail: String,
 }
 
-fn exec_child(spec: &CheckSpec, seed: u64, index: u64, thorough: bool, choices: Option<&[u32]>) -> ChildOutcome {
+fn exec_child(spec: &CheckSpec, seed: u64, index: u64, thorough: bool, choices: Option<&[Vec<u32>]>) -> ChildOutcome {
     let exe = std::env::current_exe().expect("current_exe");
     let mut cmd = Command::new(exe);
     cmd.arg("exec").arg(spec.property).arg(seed.to_string()).arg(index.to_string()).arg(if thorough { "thorough" } else { "quick" });
@@ -203,21 +203,34 @@ fn classes_of(spec: &CheckSpec, o: &ChildOutcome) -> Vec<(String, String, String
     }
 }
 
-/// Delta-debug the choice vector while the same (property, class) persists.
-fn minimise(spec: &CheckSpec, seed: u64, index: u64, thorough: bool, choices: Vec<u32>, class: &str, budget: usize, secs: u64) -> (Vec<u32>, usize) {
+fn parse_choices(v: &Value) -> Option<Vec<Vec<u32>>> {
+    v.as_array().map(|a| {
+        a.iter()
+            .map(|seg| seg.as_array().map(|s| s.iter().map(|c| c.as_u64().unwrap_or(0) as u32).collect()).unwrap_or_default())
+            .collect()
+    })
+}
+
+fn total_draws(c: &[Vec<u32>]) -> usize {
+    c.iter().map(|s| s.len()).sum()
+}
+
+/// Delta-debug the segmented choice vector while the same (property, class) persists:
+/// drop whole segments (scheduler steps), truncate, zero and shorten inside segments.
+fn minimise(spec: &CheckSpec, seed: u64, index: u64, thorough: bool, choices: Vec<Vec<u32>>, class: &str, budget: usize, secs: u64) -> (Vec<Vec<u32>>, usize) {
     let start = Instant::now();
     let mut best = choices;
     let mut tries = 0usize;
-    let mut test = |cand: &[u32], tries: &mut usize| -> bool {
+    let mut test = |cand: &[Vec<u32>], tries: &mut usize| -> bool {
         *tries += 1;
         let o = exec_child(spec, seed, index, thorough, Some(cand));
         classes_of(spec, &o).iter().any(|(_, c, _)| c == class)
     };
-    // 1. truncate suffix (binary search for shortest prefix)
-    {
-        let mut lo = 0usize;
-        let mut hi = best.len();
-        while lo < hi && tries < budget && start.elapsed().as_secs() < secs {
+    let live = |tries: usize| tries < budget && start.elapsed().as_secs() < secs;
+    // 1. shortest prefix of segments (binary search)
+    if best.len() > 1 {
+        let (mut lo, mut hi) = (1usize, best.len());
+        while lo < hi && live(tries) {
             let mid = (lo + hi) / 2;
             if test(&best[..mid], &mut tries) {
                 hi = mid;
@@ -225,50 +238,15 @@ fn minimise(spec: &CheckSpec, seed: u64, index: u64, thorough: bool, choices: Ve
                 lo = mid + 1;
             }
         }
-        if hi < best.len() && test(&best[..hi], &mut tries) {
+        if hi < best.len() && live(tries) && test(&best[..hi], &mut tries) {
             best.truncate(hi);
         }
     }
-    // 2. zero chunks, then remove chunks
+    // 2. remove chunks of segments (never segment 0: the setup)
     let mut chunk = (best.len() / 2).max(1);
-    while chunk >= 1 && tries < budget && start.elapsed().as_secs() < secs {
-        let mut i = 0;
-        let mut progress = false;
-        while i < best.len() && tries < budget && start.elapsed().as_secs() < secs {
-            let end = (i + chunk).min(best.len());
-            if best[i..end].iter().any(|x| *x != 0) {
-                let mut cand = best.clone();
-                for x in &mut cand[i..end] {
-                    *x = 0;
-                }
-                if test(&cand, &mut tries) {
-                    best = cand;
-                    progress = true;
-                }
-            }
-            i = end;
-        }
-        if chunk == 1 {
-            if !progress {
-                break;
-            }
-            // one more pass at 1 only if progress was made, bounded by budget
-            if tries >= budget {
-                break;
-            }
-            break;
-        }
-        chunk /= 2;
-    }
-    // 3. drop trailing zeros (reads as zeros anyway)
-    while best.last() == Some(&0) {
-        best.pop();
-    }
-    // 4. try deleting chunks (shifts later draws; often still fails)
-    let mut chunk = (best.len() / 4).max(1);
-    while chunk >= 1 && tries < budget && start.elapsed().as_secs() < secs {
-        let mut i = 0;
-        while i < best.len() && tries < budget && start.elapsed().as_secs() < secs {
+    loop {
+        let mut i = 1;
+        while i < best.len() && live(tries) {
             let end = (i + chunk).min(best.len());
             let mut cand = best[..i].to_vec();
             cand.extend_from_slice(&best[end..]);
@@ -278,24 +256,45 @@ fn minimise(spec: &CheckSpec, seed: u64, index: u64, thorough: bool, choices: Ve
                 i = end;
             }
         }
-        if chunk == 1 {
+        if chunk == 1 || !live(tries) {
             break;
         }
         chunk /= 2;
     }
-    // 5. decrement non-zero entries towards 1
-    let mut i = 0;
-    while i < best.len() && tries < budget && start.elapsed().as_secs() < secs {
-        if best[i] > 1 {
-            let mut cand = best.clone();
-            cand[i] = 1;
-            if test(&cand, &mut tries) {
-                best = cand;
+    // 3. inside segments: replace a segment by zeros / shorter prefixes, zero single entries
+    for k in 0..best.len() {
+        if !live(tries) {
+            break;
+        }
+        if best[k].iter().any(|x| *x != 0) {
+            // keep only the first draw (the step kind), rest benign
+            if best[k].len() > 1 {
+                let mut cand = best.clone();
+                cand[k].truncate(1);
+                if test(&cand, &mut tries) {
+                    best = cand;
+                    continue;
+                }
+            }
+            let mut j = best[k].len();
+            while j > 0 && live(tries) {
+                j -= 1;
+                if best[k][j] != 0 {
+                    let mut cand = best.clone();
+                    cand[k][j] = 0;
+                    if test(&cand, &mut tries) {
+                        best = cand;
+                    }
+                }
             }
         }
-        i += 1;
     }
-    while best.last() == Some(&0) {
+    for seg in best.iter_mut() {
+        while seg.last() == Some(&0) {
+            seg.pop();
+        }
+    }
+    while best.len() > 1 && best.last().map(|s| s.is_empty()).unwrap_or(false) {
         best.pop();
     }
     (best, tries)
@@ -342,7 +341,7 @@ struct Candidate {
     detail: String,
     index: u64,
     seed: u64,
-    choices: Option<Vec<u32>>, // None for aborts (re-executed to obtain)
+    choices: Option<Vec<Vec<u32>>>, // None for aborts (re-executed to obtain)
 }
 
 /// Run a whole check. Returns the process exit code.
@@ -496,7 +495,7 @@ pub fn check(spec: &'static CheckSpec, thorough: bool) -> i32 {
                             detail: x["d"].as_str().unwrap_or("").to_string(),
                             index: idx,
                             seed: v["seed"].as_u64().unwrap_or(0),
-                            choices: v["choices"].as_array().map(|a| a.iter().map(|c| c.as_u64().unwrap_or(0) as u32).collect()),
+                            choices: parse_choices(&v["choices"]),
                         });
                     }
                 }
@@ -571,8 +570,11 @@ pub fn check(spec: &'static CheckSpec, thorough: bool) -> i32 {
             let k = known.iter().find(|k| k.status == "known" && k.class == c.class).unwrap();
             println!("KNOWN-FINDING: property={} class={} {} (seen in {} run(s), e.g. seed={} run={})", c.property, c.class, k.what, seen_classes.get(&c.class).copied().unwrap_or(0), c.seed, c.index);
             known_hits.push(c.class.clone());
-            continue;
+            if std::env::var("VERIF_SAVE_KNOWN").is_err() {
+                continue;
+            }
         }
+        let save_known = is_known;
         if reported >= 6 {
             // still a violation; report without minimisation to bound time
         }
@@ -591,7 +593,7 @@ pub fn check(spec: &'static CheckSpec, thorough: bool) -> i32 {
         let mut final_choices = choices.clone();
         let mut tries = 0;
         let mut minimised = false;
-        if c.choices.is_some() && reported < 6 {
+        if c.choices.is_some() && reported < 6 && std::env::var("VERIF_NOMIN").is_err() {
             let (m, t) = minimise(spec, c.seed, c.index, thorough, choices.clone(), &c.class, 300, 90);
             tries = t;
             // verify the minimised vector in a fresh process
@@ -610,18 +612,28 @@ pub fn check(spec: &'static CheckSpec, thorough: bool) -> i32 {
             o.result.as_ref().and_then(|r| r["fp"].as_str().map(|s| s.to_string())).unwrap_or_default()
         };
         let cls_file: String = c.class.chars().map(|ch| if ch.is_ascii_alphanumeric() { ch } else { '_' }).collect();
-        let path = replays_dir.join(format!("{}-{}-{}-{}.json", c.property, &cls_file[..cls_file.len().min(60)], base_seed, c.index));
+        let path = if save_known {
+            let d = Path::new(VERIF_DIR).join("findings");
+            std::fs::create_dir_all(&d).ok();
+            d.join(format!("{}.json", &cls_file[..cls_file.len().min(90)]))
+        } else {
+            replays_dir.join(format!("{}-{}-{}-{}.json", c.property, &cls_file[..cls_file.len().min(60)], base_seed, c.index))
+        };
         let file = json!({
             "property": c.property, "class": c.class, "check": spec.property, "world": spec.world,
             "repo": repo_rev(), "base_seed": base_seed, "seed": c.seed, "run": c.index,
             "tier": if thorough { "thorough" } else { "quick" },
             "record_mode": c.choices.is_none(),
-            "choices": final_choices, "original_draws": choices.len(), "minimised": minimised, "minimise_replays": tries,
+            "choices": final_choices, "original_draws": total_draws(&choices), "minimised_draws": total_draws(&final_choices), "minimised": minimised, "minimise_replays": tries,
             "fingerprint": fp, "detail": detail, "trace": trace,
         });
         std::fs::write(&path, serde_json::to_vec_pretty(&file).unwrap()).ok();
+        if save_known {
+            println!("  saved replay of known finding {} to {} (draws {}->{})", c.class, path.display(), total_draws(&choices), total_draws(&final_choices));
+            continue;
+        }
         println!("VIOLATION property={} replay={}", c.property, path.display());
-        println!("  class={} seed={} run={} draws={}->{} detail={}", c.class, c.seed, c.index, choices.len(), final_choices.len(), detail);
+        println!("  class={} seed={} run={} draws={}->{} detail={}", c.class, c.seed, c.index, total_draws(&choices), total_draws(&final_choices), detail);
         violations_out.push((c.property.clone(), path.display().to_string()));
         reported += 1;
     }
@@ -714,7 +726,7 @@ pub fn replay(spec_of: impl Fn(&str) -> Option<&'static CheckSpec>, path: &str) 
     let index = v["run"].as_u64().unwrap_or(0);
     let thorough = v["tier"].as_str() == Some("thorough");
     let record_mode = v["record_mode"].as_bool().unwrap_or(false);
-    let choices: Vec<u32> = v["choices"].as_array().map(|a| a.iter().map(|c| c.as_u64().unwrap_or(0) as u32).collect()).unwrap_or_default();
+    let choices: Vec<Vec<u32>> = parse_choices(&v["choices"]).unwrap_or_default();
     let class = v["class"].as_str().unwrap_or("");
     let o = exec_child(spec, seed, index, thorough, if record_mode { None } else { Some(&choices) });
     let classes = classes_of(spec, &o);
